@@ -556,6 +556,14 @@ def verify(E, contract, variant=None, setup=None):
             E.spec_env.pop()
     except Unsupported as e:
         res.unsupported = str(e)
+    except SpecError:
+        raise
+    except (TypeError, AttributeError, KeyError, IndexError, ValueError, z3.Z3Exception, AssertionError) as e:
+        # the code under verification uses something the symbolic executor does not model:
+        # undecided (the bounded stand-in decides), never a crash and never a verdict
+        import traceback as _tb
+        last = _tb.extract_tb(e.__traceback__)[-1]
+        res.unsupported = f"engine limitation ({type(e).__name__}: {e} at {last.filename.split('/')[-1]}:{last.lineno})"
     finally:
         E.verifying = None
         E.loop_specs = saved_loops
